@@ -783,8 +783,20 @@ func (ex *Exec) convert(fr *Frame, st *State, pc *Term, v Value, from, to types.
 		if tb, ok := ut.(*types.Basic); ok {
 			if tb.Info()&types.IsInteger != 0 {
 				w, _ := intWidth(tb)
-				// float -> int : uninterpreted
-				return VBV{App(fmt.Sprintf("float2int%d", w), BV(w), x.T)}
+				// float -> int : uninterpreted, except math.Pow10(n) for 0 <= n <= 9, which is the
+				// exactly representable 10^n and converts to that integer
+				un := App(fmt.Sprintf("float2int%d", w), BV(w), x.T)
+				if x.T.Op == "app" && x.T.Name == "pow10" && w >= 32 {
+					n := x.T.Args[0]
+					r := un
+					p10 := uint64(1000000000)
+					for k := int64(9); k >= 0; k-- {
+						r = Ite(Eq(n, C64(k)), Const(p10, w), r)
+						p10 /= 10
+					}
+					return VBV{r}
+				}
+				return VBV{un}
 			}
 			return VOpaque{x.T}
 		}
